@@ -118,6 +118,14 @@ CLAIMED = {
                 note="crop_pointcloud's numpy body (winding number with a uint8 counter), get_corners geometry, monotonicity in the scale and the manager's crop are NOT proved: "
                      "bounded native harness against an independent ray-casting test (150 boxes + prisms, 60 frames per run). Clouds are sets: duplicates / row order not modelled.",
                 ref="5/C12"),
+    "C07": dict(text="Decided as leaf agreements, each a per-call contract on the real code, re-verified here: _is_target_object computes the statement's keep predicate over the object's "
+                     "EGO-FRAME position (registry transform frame_id -> BASE_LINK); evaluate_frame hands the frame's own transforms to both critical filters; get_heading_bev and the APH "
+                     "weight use the ego-frame yaw in both frame branches; get_distance / get_distance_bev are the norms of the ego-frame position (new); and the lemma, clause by clause over "
+                     "the keep predicate's text, that an ego rendering and a map rendering of one object (same attributes, registry maps the map position onto the ego position) get the same verdict.",
+                note="The property relates two executions; no obligation relates them directly. The composition 'every leaf depends on the ego-frame pose only => all metrics agree' is an "
+                     "argument over the call graph, not a discharged obligation. PlaneDistanceMatching's corner ranking (numpy) and the end-to-end agreement of lists, scores, AP/APH and CLEAR "
+                     "are bounded: native harness evaluating 40 random scenes per run in both renderings. Registry contract assumed here (X -> X identity), proved for TransformDict under C18.",
+                ref="5/C07"),
     "C19": dict(text="The per-object status tallies are verified for all lists of frame results: GroundTruthStatus.__init__ (five new, separate, empty lists), add_status "
                      "(the frame number goes to `total` and to exactly the list of its status), get_object_status (nested loops over the four pass/fail lists with "
                      "loop invariants over ghost counts: for an arbitrary uuid u, an entry exists iff some TP / FP-labelled matched FP / TN / FN item carries u, it is unique, "
@@ -151,7 +159,6 @@ def main():
     json.dump(m, open(os.path.join(HERE, "MANIFEST.json"), "w"), indent=1)
 
 NA = {
- "C07": "decided only as leaf agreements inside C03 (both filters get the frame's transforms), C09 (both frame branches of the APH weight), C10 (ego-relative position through the registry) and C18; the whole-pipeline frame-read audit was not built, so the property is not claimed",
  "C16": "the loader is glue around nuscenes-devkit and file I/O; pose semantics and table reading are the devkit's, no contract within reach",
 }
 if __name__ == "__main__":
